@@ -106,43 +106,6 @@ theorem natU_adequate (cfg : Cfg) : UAdequate (natU cfg) (NatGood cfg) where
     rw [hc]
     exact ⟨by simp only [natU]; rw [this.1], by simp only [natU]; rw [this.2]⟩
 
-/-- all modelled natives side by side -/
-def allU (cfg : Cfg) :=
-  (natU cfg).prod (settingsRW.toUSys.prod (whitelist.toUSys.prod (designate.toUSys.prod management.toUSys)))
-
-def AllGood (cfg : Cfg) :=
-  fun (v : Storage × List (Nat × Int) × List (WKey × Int) × RoleStore × MgmtStore)
-      (c : Caches × List (Nat × Int) × List (WKey × Int) × RoleCache × List (Nat × (Int × Nat))) (h : Nat) =>
-    NatGood cfg v.1 c.1 h ∧ (c.2.1 = settingsRW.init v.2.1 ∧ (c.2.2.1 = whitelist.init v.2.2.1 ∧
-      (c.2.2.2.1 = designate.init v.2.2.2.1 ∧ c.2.2.2.2 = management.init v.2.2.2.2)))
-
-theorem allU_adequate (cfg : Cfg) : UAdequate (allU cfg) (AllGood cfg) :=
-  (natU_adequate cfg).prod (settingsRW_exact.uadequate.prod (whitelist_exact.uadequate.prod
-    (designate_exact.uadequate.prod management_exact.uadequate)))
-
-def allDefault : Caches × List (Nat × Int) × List (WKey × Int) × RoleCache × List (Nat × (Int × Nat)) :=
-  (emptyCaches, [], [], [], [])
-
-def allSys (cfg : Cfg) := (allU cfg).toSys allDefault
-
-/-- a node holding all modelled natives: `nat` part at genesis, the components with the given initial storage
-    and the caches InitializeCache builds from it -/
-def allGenesisNode (cfg : Cfg) (holder : Acct) (s0 : List (Nat × Int)) (w0 : List (WKey × Int)) (r0 : RoleStore) (m0 : MgmtStore) :
-    Node Unit (Storage × List (Nat × Int) × List (WKey × Int) × RoleStore × MgmtStore)
-      (Caches × List (Nat × Int) × List (WKey × Int) × RoleCache × List (Nat × (Int × Nat)))
-      (List Res × Unit × Unit × Unit × Unit) Unit :=
-  { db := fun _ => some (genesisStorage cfg holder, s0, w0, r0, m0), mem := [],
-    cache := (genesisCaches cfg holder, settingsRW.init s0, whitelist.init w0, designate.init r0, management.init m0),
-    height := 0, pool := [], last := ([], (), (), (), ()) }
-
-theorem allGenesis_good (cfg : Cfg) (holder : Acct) s0 w0 r0 m0 :
-    UGood (AllGood cfg) (allGenesisNode cfg holder s0 w0 r0 m0).read (allGenesisNode cfg holder s0 w0 r0 m0).cache 0 := by
-  refine ⟨(genesisStorage cfg holder, s0, w0, r0, m0), rfl, ?_, rfl, rfl, rfl, rfl⟩
-  obtain ⟨st, hst, hp, hn⟩ := genesis_good cfg holder
-  have : st = genesisStorage cfg holder := by
-    have : (genesisNode cfg holder).read () = some (genesisStorage cfg holder) := rfl
-    rw [this] at hst; exact (Option.some.inj hst).symm
-  subst this
-  exact ⟨hp, hn⟩
+-- the product of all modelled natives (guards of the committee setters included): Proofs/LedgerProductG.lean
 
 end NeoModel.Ledger.Natives
